@@ -350,9 +350,17 @@ impl Builder {
                         "\"a revert reason that is considerably longer than thirty-two bytes in total\"", "\"\"",
                         "unicode\"éééééééééééééééé\"", "unicode\"aaaaaaaaaaaaaaaaaaaaaaaaaaaaaaé\"", "unicode\"ééééééééééééééé\"", "\"ünïcödé in a plain literal, 32+ b\"",
                     ]).to_string();
-                    if self.rng.chance(1, 8) {
+                    if self.rng.chance(1, 6) {
                         // a message made of several adjacent literals
-                        args.push(self.ex(E::Str(vec!["\"too\"".into(), "\"small, really: well under thirty-two\"".into()])));
+                        // (totals of 40, 31, 32, 33 and 20 bytes: on both sides of the 32-byte threshold)
+                        let parts: Vec<String> = match self.rng.below(5) {
+                            0 => vec!["\"too\"".into(), "\"small, really: well under thirty-two\"".into()],
+                            1 => vec!["\"fifteen bytes..\"".into(), "\"sixteen bytes...\"".into()],
+                            2 => vec!["\"sixteen bytes...\"".into(), "'sixteen bytes...'".into()],
+                            3 => vec!["\"sixteen bytes...\"".into(), "\"seventeen bytes..\"".into()],
+                            _ => vec!["\"ten bytes.\"".into(), "\"five.\"".into(), "\"five.\"".into()],
+                        };
+                        args.push(self.ex(E::Str(parts)));
                     } else {
                         args.push(self.ex(E::Str(vec![s])));
                     }
